@@ -42,6 +42,9 @@ def run(ck):
     # "at least one report": a root with legal moves gets an entry only if the move-less test (node counter unchanged over the move loop) is
     # not fooled - every visited node must count itself before anything can return (C04's X3)
     from .c04 import x3_poll_placement
+    # a draw / dead-position shortcut taken at the root returns before anything is stored: no entry, no line, no report (C17's D1-D3)
+    from .c17 import d1_d2_d3
+    ck.run_rule(d1_d2_d3)
     for r in (h1_h2_h5_influence, h4_keys, h6_single_source, t1_key_check, t2_routing, t3_never_emptied, t4_eviction, i10_first_iteration, x3_poll_placement):
         ck.run_rule(r)
 
